@@ -297,14 +297,74 @@ fn probe_history(func: &str) -> bool {
     false
 }
 
-#[allow(dead_code)]
-fn unused(_: Dual) {}
+/// quotes that already are dual numbers keep their own variables: a market whose k-th quote is supplied as
+/// Dual / Dual2 carrying the user variable "spot<k>" (sensitivity 1) reports d cross / d spot<k> = +-cross/quote on the path,
+/// nothing under fx_<pair k>, and the plain quotes keep their fx_<pair> names -- at first and second order, also after an
+/// update / order round trip
+fn probe_own_vars(func: &str) -> bool {
+    use rateslib::dual::Dual2;
+    for n in 2..=5usize {
+        for parent in shapes(n) {
+            let m = market(n, &parent, 0b0101 & ((1 << (n - 1)) - 1), 0);
+            for second in [false, true] {
+                for mask in 1..(1usize << (n - 1)) {
+                    // quotes in `mask` are supplied as dual numbers
+                    let v: Vec<FXRate> = m.quotes.iter().enumerate().map(|(k, (a, b, r))| {
+                        let num = if (mask >> k) & 1 == 1 {
+                            if second { Number::Dual2(Dual2::new(*r, vec![format!("spot{}", k)])) } else { Number::Dual(Dual::new(*r, vec![format!("spot{}", k)])) }
+                        } else { Number::F64(*r) };
+                        FXRate::try_new(CCYS[*a], CCYS[*b], num, None).unwrap()
+                    }).collect();
+                    let what = format!("FXRates::try_new([{}]) with quotes {:?} supplied as {} carrying variables spot<k>", show(&m), (0..n - 1).filter(|k| (mask >> k) & 1 == 1).collect::<Vec<_>>(), if second { "Dual2" } else { "Dual" });
+                    let mut fxr = match std::panic::catch_unwind(std::panic::AssertUnwindSafe(|| FXRates::try_new(v, None))) {
+                        Ok(Ok(f)) => f,
+                        Ok(Err(_)) => { report("probe", func, &what, "Err", "Ok", false); return true; }
+                        Err(_) => { report("probe", func, &what, "PANIC", "Ok", false); return true; }
+                    };
+                    for round in 0..3 {
+                        if round == 1 { if fxr.set_ad_order(ADOrder::Two).is_err() { continue; } }
+                        if round == 2 { if fxr.set_ad_order(ADOrder::One).is_err() { continue; } }
+                        crate::CASES.fetch_add(1, std::sync::atomic::Ordering::Relaxed);
+                        for i in 0..n {
+                            for j in 0..n {
+                                let (exp, dirs) = oracle(&m, i, j);
+                                let got = match fxr.rate(&ccy(CCYS[i]), &ccy(CCYS[j])) { Some(x) => x, None => { report("probe", func, &format!("{}: rate({}, {})", what, CCYS[i], CCYS[j]), "None", &format!("{}", exp), false); return true; } };
+                                if !close(val(&got), exp) {
+                                    report("probe", func, &format!("{}: rate({}, {})", what, CCYS[i], CCYS[j]), &format!("{}", val(&got)), &format!("{}", exp), false);
+                                    return true;
+                                }
+                                for (k, (a, b, r)) in m.quotes.iter().enumerate() {
+                                    let own = (mask >> k) & 1 == 1;
+                                    let fxname = format!("fx_{}{}", CCYS[*a], CCYS[*b]);
+                                    let spot = format!("spot{}", k);
+                                    let names = vec![fxname.clone(), spot.clone()];
+                                    let g: Vec<f64> = match &got {
+                                        Number::Dual(d) => d.gradient1(names.clone()).to_vec(),
+                                        Number::Dual2(d) => d.gradient1(names.clone()).to_vec(),
+                                        Number::F64(_) => continue,
+                                    };
+                                    let e = dirs[k] as f64 * exp / r;
+                                    let (e_fx, e_spot) = if own { (0.0, e) } else { (e, 0.0) };
+                                    if !close(g[0], e_fx) || !close(g[1], e_spot) {
+                                        report("probe", func, &format!("{} (after {} order switches): (d rate({}, {}) / d {}, d / d {})", what, round, CCYS[i], CCYS[j], fxname, spot), &format!("({}, {})", g[0], g[1]), &format!("({}, {})", e_fx, e_spot), false);
+                                        return true;
+                                    }
+                                }
+                            }
+                        }
+                    }
+                }
+            }
+        }
+    }
+    false
+}
 
 pub fn probe(func: &str) -> bool {
     std::panic::set_hook(Box::new(|_| {}));
     match func {
-        "update" | "set_ad_order" | "rate" => probe_history(func) || probe_build(func),
-        "try_new" | "create_fx_array" | "mut_arrays_remaining_elements" | "create_initial_fx_array" | "create_initial_edges" => probe_build(func) || probe_history(func),
+        "update" | "set_ad_order" | "rate" => probe_history(func) || probe_own_vars(func) || probe_build(func),
+        "try_new" | "create_fx_array" | "create_fx_array_lift" | "mut_arrays_remaining_elements" | "create_initial_fx_array" | "create_initial_edges" => probe_own_vars(func) || probe_build(func) || probe_history(func),
         _ => false,
     }
 }
